@@ -272,6 +272,7 @@ fn softstop(seed: u64) {
         L { kind: "http", addr: free_addr(), public: None },
         L { kind: "https", addr: free_addr(), public: None },
         L { kind: "tcp", addr: free_addr(), public: None },
+        L { kind: "udp", addr: free_addr(), public: None },
     ];
     let front = ls[0].addr;
     let back_l = TcpListener::bind("127.0.0.1:0").unwrap();
@@ -313,6 +314,12 @@ fn softstop(seed: u64) {
     //    connection attempt is refused (one that merely queues in the backlog of a socket nobody accepts from
     //    would be reset when the worker exits)
     for l in &ls {
+        if l.kind == "udp" {
+            if !bound(l.addr, true).is_empty() {
+                println!("viol listener-open-after-ack the udp socket is still open and bound after the SoftStop acknowledgement");
+            }
+            continue;
+        }
         match TcpStream::connect_timeout(&l.addr, Duration::from_secs(2)) {
             Err(e) if e.kind() == ErrorKind::ConnectionRefused => {}
             Err(e) => println!("note bb: connect to the {} listener during the drain: {e}", l.kind),
